@@ -77,6 +77,7 @@ REGIONS = {
     'batch_mix': dict(mix=True, batchy=True),                      # batch arrivals under max_time / max_customers / max_time
     'core_mix': dict(mix=True),                                    # one run = max_time, then max_customers, then max_time again
     'block_mix': dict(block=1.0, mix=True),
+    'dyn_reroute': dict(dyn=1.0, prio=1.0, preempt=1.0, reroute=True, reroute_all=True, multiclass=True, noblock=True),   # class change while waiting that pre-empts and reroutes
     'spf': dict(spf=1.0),                                          # server priority functions (which free server is taken)
     'spf_sched': dict(spf=1.0, sched=1.0, noblock=True),
     'spf_block': dict(spf=1.0, block=0.8),
@@ -98,6 +99,8 @@ def gen(region, seed, size='quick'):
         n = rng.choice([1, 1, 2])
     if f.get('deadlock'):
         n = rng.choice([1, 2, 2, 3])
+    if f.get('reroute_all') and n == 1:
+        n = 2
     cfg = {'n': n, 'k': k, 'region': region, 'gen_seed': seed, 'seed': rng.randrange(1 << 30)}
     P = lambda key, d=0.0: rng.random() < f.get(key, d)
     zero = 0.15
@@ -151,6 +154,9 @@ def gen(region, seed, size='quick'):
                 servers.append(rng.choice([1, 1, 2, 3]))
             else:
                 servers.append(rng.choice([1, 1, 2, 3, 'inf'] + ([0] if rng.random() < 0.1 else [])))
+    if f.get('reroute_all'):
+        # pre-emption happens at the small nodes, the rerouted victims find a free server at the last one
+        servers = [1] * (n - 1) + [rng.choice(['inf', 3])]
     cfg['servers'] = servers
     if noblock:
         cfg['qcap'] = None
@@ -220,6 +226,8 @@ def gen(region, seed, size='quick'):
             cfg['preempt'] = [rng.choice(opts + [False]) for _ in range(n)]
             if f.get('deep'):
                 cfg['preempt'] = [rng.choice(['restart', 'restart', 'resume', 'resample']) for _ in range(n)]
+    if f.get('reroute_all') and cfg.get('prio') is not None:
+        cfg['preempt'] = ['reroute'] * n
     cfg['disc'] = [rng.choice(['FIFO', 'FIFO', 'LIFO', 'SIRO']) for _ in range(n)] if rng.random() < 0.4 else None
     if (rng.random() < 0.3) or f.get('batchy'):
         cfg['batch'] = [[([rng.choice([0, 1, 1, 2, 3]) for _ in range(rng.randint(1, 3))] if cfg['arr'][c][j] is not None else None)
